@@ -203,6 +203,8 @@ def run(ctx):
     iitems, iidx, imism = [], [], []
     for i, c in enumerate(icases):
         r = ires["compiled"][i]
+        if rs.has_error(ires, i):
+            continue
         if r != ires["pure"][i]:
             build_diff.append(("inplace", i))
         if "setup_error" in r:
@@ -238,9 +240,10 @@ def run(ctx):
             if proof_ok:
                 raise
             coq_ok = False
+    cerrs = rs.case_errors(res) + rs.case_errors(ires) + rs.case_errors(nres)
     rel_hist = {}
     for c, r in zip(ncases, nres["compiled"]):
-        if "setup_error" in r:
+        if "setup_error" in r or "case_error" in r:
             continue
         for st, sr in zip(c["stmts"], r["stmts"]):
             if "returned" in sr:
@@ -276,6 +279,8 @@ def run(ctx):
     ctx.obligations.append(("oracle: deferred value = direct Python evaluation on every random tree and state (both builds)", not oracle_fail, f"{len(oracle_fail)} failing"))
     ctx.obligations.append(("oracle sweep: operator x operand order x value samples, builtins, calls, access, in-place (both builds)", not sfails, f"{len(sfails)} failing of {nsweep}"))
     ctx.obligations.append(("every class met is known to the translator", not unknown, ", ".join(unknown)))
+    ctx.obligations.append(("no case ended by an exception of the library outside the evaluations the model predicts", not cerrs,
+                            "" if not cerrs else f"{len(cerrs)} cases, first: {cerrs[0][2]}"))
 
     # ---- decision -------------------------------------------------------------------------------
     if sfails:
@@ -295,8 +300,9 @@ def run(ctx):
         bad, r = tree_fails(small, ids, b)
         vlib.violation(ctx, {"kind": "tree", "what": "deferred evaluation differs from direct Python evaluation", "build": b,
                              "case": small, "observed": r, "how_to_replay": "./check C04 --replay <this file>"})
-    elif mism or imism or nmism or emism or ndiff or build_diff or unknown or not proof_ok or not coq_ok:
+    elif mism or imism or nmism or emism or ndiff or build_diff or unknown or cerrs or not proof_ok or not coq_ok:
         what = list(getattr(ctx, "broken", []))
+        rs.describe_errors(cerrs, what)
         if mism:
             i = mism[0]
             what.append(f"correspondence model vs implementation broke on {len(mism)} trees, first: {json.dumps(cases[i]['pexp'])} built={json.dumps(res['compiled'][i].get('term'))} values={json.dumps(res['compiled'][i].get('values'))}")
@@ -318,7 +324,7 @@ def run(ctx):
         extra = [gen_tree_case(ctx.rng) for _ in range(3000)]
         found = None
         nfound = None
-        if nmism or emism or ndiff:
+        if nmism or emism or ndiff or cerrs:
             nextra = [rn.gen_case(ctx.rng) for _ in range(1500)]
             _, no2, _, _, _, _, _, _ = rn.run_stream(ctx, ids, nextra, "n2")
             if no2:
